@@ -1476,116 +1476,150 @@ def AnnE.noQuotes : AnnE → Bool
   | .bor a b => a.noQuotes && b.noQuotes
   | _ => true
 
-theorem unstringE_spec : ∀ (e r : AnnE), e.unstringE = some r →
-    r.strip = e.strip ∧ r.noQuotes = true ∧ r.unstringE = some r := by
+theorem visit_spec : ∀ (e : AnnE),
+    (e.visit.2).strip = e.strip ∧
+    ∀ r, e.visit.1 = some r → r.strip = e.strip ∧ r.noQuotes = true ∧ r.visit = (some r, r) := by
   intro e
   induction e with
-  | atom a => intro r h; simp only [AnnE.unstringE, Option.some.injEq] at h; subst h; simp [AnnE.strip, AnnE.noQuotes, AnnE.unstringE]
-  | literalName => intro r h; simp only [AnnE.unstringE, Option.some.injEq] at h; subst h; simp [AnnE.strip, AnnE.noQuotes, AnnE.unstringE]
-  | noneLit => intro r h; simp only [AnnE.unstringE, Option.some.injEq] at h; subst h; simp [AnnE.strip, AnnE.noQuotes, AnnE.unstringE]
-  | badStr a => intro r h; simp [AnnE.unstringE] at h
+  | atom a => simp [AnnE.visit, AnnE.strip, AnnE.noQuotes]
+  | literalName => simp [AnnE.visit, AnnE.strip, AnnE.noQuotes]
+  | noneLit => simp [AnnE.visit, AnnE.strip, AnnE.noQuotes]
+  | badStr a => simp [AnnE.visit, AnnE.strip]
   | str e ih =>
+    refine ⟨by simp [AnnE.visit], ?_⟩
     intro r h
-    simp only [AnnE.unstringE] at h
-    obtain ⟨h1, h2, h3⟩ := ih r h
+    simp only [AnnE.visit] at h
+    obtain ⟨h1, h2, h3⟩ := ih.2 r h
     exact ⟨by simp [AnnE.strip, h1], h2, h3⟩
   | attr v n ih =>
-    intro r h
-    simp only [AnnE.unstringE] at h
-    cases hv : v.unstringE with
-    | none => simp [hv] at h
-    | some v' =>
-      simp only [hv, Option.some.injEq] at h
-      subst h
-      obtain ⟨h1, h2, h3⟩ := ih v' hv
-      simp [AnnE.strip, AnnE.noQuotes, AnnE.unstringE, h1, h2, h3]
+    obtain ⟨ihm, ihr⟩ := ih
+    cases hv : v.visit with
+    | mk res vm =>
+      rw [hv] at ihm ihr
+      cases res with
+      | none => simp_all [AnnE.visit, AnnE.strip]
+      | some v' =>
+        obtain ⟨h1, h2, h3⟩ := ihr v' rfl
+        simp [AnnE.visit, hv, AnnE.strip, AnnE.noQuotes, h1, h2, h3]
   | sub v sl ihv ihs =>
-    intro r h
-    simp only [AnnE.unstringE] at h
-    cases hv : v.unstringE with
-    | none => simp [hv] at h
-    | some v' =>
-      obtain ⟨h1, h2, h3⟩ := ihv v' hv
-      simp only [hv] at h
-      by_cases hl : v'.isLiteralRef = true
-      · simp only [hl, if_true, Option.some.injEq] at h
-        subst h
-        simp [AnnE.strip, AnnE.noQuotes, AnnE.unstringE, h1, h2, h3, hl]
-      · have hl' : v'.isLiteralRef = false := by simpa using hl
-        simp only [hl', Bool.false_eq_true, if_false] at h
-        cases hs : sl.unstringE with
-        | none => simp [hs] at h
-        | some s' =>
-          simp only [hs, Option.some.injEq] at h
-          subst h
-          obtain ⟨g1, g2, g3⟩ := ihs s' hs
-          simp [AnnE.strip, AnnE.noQuotes, AnnE.unstringE, h1, h2, h3, g1, g2, g3, hl']
+    obtain ⟨ihvm, ihvr⟩ := ihv
+    obtain ⟨ihsm, ihsr⟩ := ihs
+    cases hv : v.visit with
+    | mk res vm =>
+      rw [hv] at ihvm ihvr
+      simp only at ihvm
+      cases res with
+      | none => simp [AnnE.visit, hv, AnnE.strip, ihvm]
+      | some v' =>
+        obtain ⟨h1, h2, h3⟩ := ihvr v' rfl
+        by_cases hl : v'.isLiteralRef = true
+        · simp [AnnE.visit, hv, hl, AnnE.strip, AnnE.noQuotes, h1, h2, h3, ihvm]
+        · have hl' : v'.isLiteralRef = false := by simpa using hl
+          cases hs : sl.visit with
+          | mk sres sm =>
+            rw [hs] at ihsm ihsr
+            simp only at ihsm
+            cases sres with
+            | none => simp [AnnE.visit, hv, hl', hs, AnnE.strip, ihvm, ihsm]
+            | some s' =>
+              obtain ⟨g1, g2, g3⟩ := ihsr s' rfl
+              simp [AnnE.visit, hv, hl', hs, AnnE.strip, AnnE.noQuotes, h1, h2, h3, g1, g2, g3, ihvm, ihsm]
   | tup a b iha ihb =>
-    intro r h
-    simp only [AnnE.unstringE] at h
-    cases ha : a.unstringE with
-    | none => simp [ha] at h
-    | some a' =>
-      cases hb : b.unstringE with
-      | none => simp [ha, hb] at h
-      | some b' =>
-        simp only [ha, hb, Option.some.injEq] at h
-        subst h
-        obtain ⟨h1, h2, h3⟩ := iha a' ha
-        obtain ⟨g1, g2, g3⟩ := ihb b' hb
-        simp [AnnE.strip, AnnE.noQuotes, AnnE.unstringE, h1, h2, h3, g1, g2, g3]
+    obtain ⟨iham, ihar⟩ := iha
+    obtain ⟨ihbm, ihbr⟩ := ihb
+    cases ha : a.visit with
+    | mk ares am =>
+      rw [ha] at iham ihar
+      simp only at iham
+      cases ares with
+      | none => simp [AnnE.visit, ha, AnnE.strip, iham]
+      | some a' =>
+        obtain ⟨h1, h2, h3⟩ := ihar a' rfl
+        cases hb : b.visit with
+        | mk bres bm =>
+          rw [hb] at ihbm ihbr
+          simp only at ihbm
+          cases bres with
+          | none => simp [AnnE.visit, ha, hb, AnnE.strip, iham, ihbm]
+          | some b' =>
+            obtain ⟨g1, g2, g3⟩ := ihbr b' rfl
+            simp [AnnE.visit, ha, hb, AnnE.strip, AnnE.noQuotes, h1, h2, h3, g1, g2, g3]
   | bor a b iha ihb =>
-    intro r h
-    simp only [AnnE.unstringE] at h
-    cases ha : a.unstringE with
-    | none => simp [ha] at h
-    | some a' =>
-      cases hb : b.unstringE with
-      | none => simp [ha, hb] at h
-      | some b' =>
-        simp only [ha, hb, Option.some.injEq] at h
-        subst h
-        obtain ⟨h1, h2, h3⟩ := iha a' ha
-        obtain ⟨g1, g2, g3⟩ := ihb b' hb
-        simp [AnnE.strip, AnnE.noQuotes, AnnE.unstringE, h1, h2, h3, g1, g2, g3]
+    obtain ⟨iham, ihar⟩ := iha
+    obtain ⟨ihbm, ihbr⟩ := ihb
+    cases ha : a.visit with
+    | mk ares am =>
+      rw [ha] at iham ihar
+      simp only at iham
+      cases ares with
+      | none => simp [AnnE.visit, ha, AnnE.strip, iham]
+      | some a' =>
+        obtain ⟨h1, h2, h3⟩ := ihar a' rfl
+        cases hb : b.visit with
+        | mk bres bm =>
+          rw [hb] at ihbm ihbr
+          simp only at ihbm
+          cases bres with
+          | none => simp [AnnE.visit, ha, hb, AnnE.strip, h1, ihbm]
+          | some b' =>
+            obtain ⟨g1, g2, g3⟩ := ihbr b' rfl
+            simp [AnnE.visit, ha, hb, AnnE.strip, AnnE.noQuotes, h1, h2, h3, g1, g2, g3]
 
-/-- **`Signature.unstring_only_quotes`**: whatever `unstring_annotation` returns is the source
-expression up to string quoting — it never changes a name, an attribute, a subscript structure. -/
+/-- **`Signature.unstring_only_quotes`**: whatever `unstring_annotation` returns — the unquoted
+expression, or after a `SyntaxError` the original node as the transformer left it — is the source
+expression up to string quoting: it never changes a name, an attribute, a subscript structure. -/
 theorem unstring_only_quotes (e : AnnE) : e.unstring.strip = e.strip := by
   unfold AnnE.unstring
-  cases h : e.unstringE with
-  | none => rfl
-  | some r => exact (unstringE_spec e r h).1
+  have := visit_spec e
+  cases h : e.visit with
+  | mk res orig =>
+    rw [h] at this
+    cases res with
+    | none => exact this.1
+    | some r => exact (this.2 r rfl).1
 
-/-- **`Signature.unstring_result`**: the result is either the untouched original (exactly when a
-string inside is not an expression: a warning is reported) or free of quotes outside `Literal[...]`. -/
+/-- **`Signature.unstring_result`**: either a string inside is not an expression (`SyntaxError`, a warning
+is reported) or the result is free of quotes outside `Literal[...]`. -/
 theorem unstring_result (e : AnnE) :
-    (e.unstringE = none ∧ e.unstring = e) ∨ (e.unstringE = some e.unstring ∧ e.unstring.noQuotes = true) := by
-  unfold AnnE.unstring
-  cases h : e.unstringE with
-  | none => exact Or.inl ⟨rfl, rfl⟩
-  | some r => exact Or.inr ⟨rfl, (unstringE_spec e r h).2.1⟩
+    e.unstringE = none ∨ (e.unstringE = some e.unstring ∧ e.unstring.noQuotes = true) := by
+  unfold AnnE.unstring AnnE.unstringE
+  have := visit_spec e
+  cases h : e.visit with
+  | mk res orig =>
+    rw [h] at this
+    cases res with
+    | none => exact Or.inl rfl
+    | some r => exact Or.inr ⟨rfl, (this.2 r rfl).2.1⟩
 
-/-- **`Signature.unstring_idempotent`** -/
-theorem unstring_idempotent (e : AnnE) : e.unstring.unstring = e.unstring := by
-  unfold AnnE.unstring
-  cases h : e.unstringE with
-  | none => simp [h]
-  | some r => simp [(unstringE_spec e r h).2.2]
+/-- **`Signature.unstring_idempotent`**: a successfully unquoted annotation is a fixed point (and visiting
+it modifies nothing). -/
+theorem unstring_idempotent (e r : AnnE) (h : e.unstringE = some r) : r.unstring = r ∧ r.visit = (some r, r) := by
+  have := ((visit_spec e).2 r h).2.2
+  exact ⟨by simp [AnnE.unstring, this], this⟩
 
 /-- **`Signature.literal_args_verbatim`**: the arguments of `Literal[...]` stay as written whatever
 prefix `Literal` is reached through (`Literal`, `typing.Literal`, `t.Literal`, `"t".Literal` …),
 while the prefix itself is unquoted. -/
-theorem literal_args_verbatim (v v' sl : AnnE) (hv : v.unstringE = some v') :
+theorem literal_args_verbatim (v v' vm sl : AnnE) (hv : v.visit = (some v', vm)) :
     (AnnE.sub .literalName sl).unstring = .sub .literalName sl ∧
     (AnnE.sub (.attr v 0) sl).unstring = .sub (.attr v' 0) sl := by
-  simp [AnnE.unstring, AnnE.unstringE, hv, AnnE.isLiteralRef]
+  simp [AnnE.unstring, AnnE.visit, hv, AnnE.isLiteralRef]
 
 /-- … and any other subscript has its slice unquoted -/
-theorem other_subscript_unquoted (v v' sl sl' : AnnE) (hv : v.unstringE = some v')
-    (hl : v'.isLiteralRef = false) (hs : sl.unstringE = some sl') :
+theorem other_subscript_unquoted (v v' vm sl sl' sm : AnnE) (hv : v.visit = (some v', vm))
+    (hl : v'.isLiteralRef = false) (hs : sl.visit = (some sl', sm)) :
     (AnnE.sub v sl).unstring = .sub v' sl' := by
-  simp [AnnE.unstring, AnnE.unstringE, hv, hl, hs]
+  simp [AnnE.unstring, AnnE.visit, hv, hl, hs]
+
+/-- **`Signature.unstring_failure_in_place`** (what the code does today, not what its docstring says):
+after a `SyntaxError` the "original node" that is returned can already be partly unquoted —
+`'a1' | 'a1 !'` comes back as `a1 | 'a1 !'` (BinOp children are assigned one by one), while
+`('a1', 'a1 !')` comes back untouched (a list of elements is assigned only when all were visited). -/
+theorem unstring_failure_in_place :
+    (AnnE.bor (.str (.atom 1)) (.badStr 1)).unstring = .bor (.atom 1) (.badStr 1) ∧
+    (AnnE.tup (.str (.atom 1)) (.badStr 1)).unstring = .tup (.str (.atom 1)) (.badStr 1) ∧
+    (AnnE.sub (.str (.atom 8)) (.badStr 1)).unstring = .sub (.str (.atom 8)) (.badStr 1) := by
+  decide
 
 /-- non-vacuity: `t.Literal["a1"]` keeps its string, `List["a1"]`, `"List[a1]"`, `"'a1'"` lose theirs,
 `List["a1 !"]` (not an expression) is returned untouched. -/
